@@ -19,6 +19,23 @@ SYNONYMS = {
 LOGICAL = {'logical_and': 'and', 'logical_or': 'or', 'bitwise_and': 'and', 'bitwise_or': 'or'}
 
 
+def clone(node):
+    """Structural copy of an AST node that does not follow the _parent back links
+    (copy.deepcopy would copy the whole module through them)."""
+    if isinstance(node, ast.AST):
+        new = type(node)()
+        for f in node._fields:
+            if hasattr(node, f):
+                setattr(new, f, clone(getattr(node, f)))
+        for a in ('lineno', 'col_offset', 'end_lineno', 'end_col_offset'):
+            if hasattr(node, a):
+                setattr(new, a, getattr(node, a))
+        return new
+    if isinstance(node, list):
+        return [clone(x) for x in node]
+    return node
+
+
 class Opaque:
     """Marks a local that must not be inlined (assigned in a loop, or more
     than once on different paths)."""
@@ -27,25 +44,53 @@ class Opaque:
 OPAQUE = Opaque()
 
 
-def subst(expr, env, depth=0):
-    """Replace Names bound in env by their defining expressions."""
-    if depth > 12:
-        return expr
+def _size(node):
+    n = 0
+    for _ in ast.walk(node):
+        n += 1
+    return n
 
-    class T(ast.NodeTransformer):
-        def visit_Name(self, node):
-            if isinstance(node.ctx, ast.Load) and node.id in env and env[node.id] is not OPAQUE:
-                return subst(copy.deepcopy(env[node.id]), env_without(env, node.id), depth + 1)
-            return node
 
-        def visit_Lambda(self, node):
-            return node
+def subst(expr, env, depth=0, cap=400):
+    """Replace Names bound in env by their (recursively substituted) defining
+    expressions.  Definitions are resolved once each (memo), cycles and
+    over-large results stay symbolic."""
+    memo = {}
+    busy = set()
 
-        def visit_ListComp(self, node):
-            return node
+    def resolve(name):
+        if name in memo:
+            return memo[name]
+        v = env.get(name)
+        if v is None or v is OPAQUE or name in busy:
+            memo[name] = None
+            return None
+        busy.add(name)
+        r = apply(v)
+        busy.discard(name)
+        if _size(r) > cap:
+            r = None
+        memo[name] = r
+        return r
 
-        visit_GeneratorExp = visit_SetComp = visit_DictComp = visit_ListComp
-    return T().visit(copy.deepcopy(expr))
+    def apply(e):
+        class T(ast.NodeTransformer):
+            def visit_Name(self, node):
+                if isinstance(node.ctx, ast.Load) and node.id in env:
+                    r = resolve(node.id)
+                    if r is not None:
+                        return clone(r)
+                return node
+
+            def visit_Lambda(self, node):
+                return node
+
+            def visit_ListComp(self, node):
+                return node
+
+            visit_GeneratorExp = visit_SetComp = visit_DictComp = visit_ListComp
+        return T().visit(clone(e))
+    return apply(expr)
 
 
 def env_without(env, name):
@@ -419,4 +464,4 @@ def rename(expr, mapping):
             if node.arg in mapping:
                 node.arg = mapping[node.arg]
             return node
-    return T().visit(copy.deepcopy(expr))
+    return T().visit(clone(expr))
